@@ -879,7 +879,7 @@ func (g *Gen) Array() ast.Vertex {
 		it := &ast.ExprArrayItem{}
 		switch g.intn(6, "item") {
 		case 0:
-			it.Key, it.DoubleArrowTkn, it.Val = g.Expr(), g.tok(token.T_DOUBLE_ARROW, "=>"), g.Expr()
+			it.Key, it.DoubleArrowTkn, it.Val = g.arrayKey(), g.tok(token.T_DOUBLE_ARROW, "=>"), g.Expr()
 		case 1:
 			it.AmpersandTkn, it.Val = g.ch('&'), g.Variable(2, true)
 			g.feat("array-item-ref")
@@ -891,7 +891,7 @@ func (g *Gen) Array() ast.Vertex {
 			}
 			it.Val = g.Expr()
 		case 3:
-			it.Key, it.DoubleArrowTkn, it.AmpersandTkn, it.Val = g.Expr(), g.tok(token.T_DOUBLE_ARROW, "=>"), g.ch('&'), g.Variable(2, true)
+			it.Key, it.DoubleArrowTkn, it.AmpersandTkn, it.Val = g.arrayKey(), g.tok(token.T_DOUBLE_ARROW, "=>"), g.ch('&'), g.Variable(2, true)
 		default:
 			it.Val = g.Expr()
 		}
@@ -902,6 +902,19 @@ func (g *Gen) Array() ast.Vertex {
 	}
 	g.arrayTrailingComma(n)
 	return n
+}
+
+// arrayKey draws the key of an array item. It is followed by "=>", which an unbracketed yield on the
+// key's right edge would take as its own ("yield $k => $v"), so such a key is written in brackets.
+func (g *Gen) arrayKey() ast.Vertex {
+	k := g.Expr()
+	for n := k; n != nil; n = rightOperand(n) {
+		if _, ok := n.(*ast.ExprYield); ok {
+			g.feat("brackets-required")
+			return g.Brackets(k)
+		}
+	}
+	return k
 }
 
 // arrayTrailingComma adds (1 time in 4) a trailing comma to a non-empty array literal. Both grammars
